@@ -392,6 +392,7 @@ func checkC14(p *load.Program, r *kit.Report) {
 	r.NotDecided = "the pong itself (needs the send path to run), multi-MB payload timing; for count-prefixed item loops exactness relies on the protocol's own invariant that varint + count×item equals the declared length (conformant traffic, which is what the property grants)."
 	r.Rule("CONSUME", "every handler return that may be nil is reached only after the message was consumed to exactly header.Length: readMessage, DiscardInput(r, header.Length), a deferred DiscardInputWithCounter/discardBlock whose counter tees every later read, or the exit of a count-bounded item loop; typed exemptions: closing connection (!IsReady in handlers installed with ready), dead-by-installation (txManager == nil), zero-payload commands, shutdown (interrupt arm)", 25)
 	r.Rule("FRAME-HELPERS", "readHeader reads 4+12+4+4 bytes and rejects a foreign magic before reading on; readMessage consumes exactly header.Length on success; DiscardInput reads n = (n/1024)·1024 + n%1024 bytes with full reads; handleMessage discards header.Length when no handler exists; handleExtended rewrites header.Length from the 12+8 byte extended header before installing the counted discard; readIncoming stops on every handler error", 7)
+	r.Rule("DEADLINE-CLEARED", "a read deadline armed on the connection (SetReadDeadline/SetDeadline with a non-zero time) is set back to the zero time on every path to a successful return of the function that armed it, or of the callers it is handed to: the read loop waits for the next header for as long as the peer is quiet, and a deadline left armed turns that wait into an i/o timeout that stops the node", 1)
 	r.Rule("READ-AHEAD", "nothing in the node package wraps the connection (or a reader derived from it) in a bufio reader/scanner or reads it to EOF: a read-ahead buffer swallows the beginning of the next message", 1)
 	r.Rule("BLOCKING-OP", "no handler performs a blocking send on a channel held in a BitcoinNode field; the outgoing queue is drained until closed by sendOutgoing (flush loop on every early exit)", 2)
 	r.Rule("SINGLE-WRITER", "only BitcoinNode.sendOutgoing writes to the connection (every other sender queues through sendMessage): a pong is never interleaved with another outgoing message", 1)
@@ -410,6 +411,7 @@ func checkC14(p *load.Program, r *kit.Report) {
 	}
 	checkFrameHelpers(p, r, "FRAME-HELPERS")
 	checkReadAhead(p, r, "READ-AHEAD")
+	checkDeadlineCleared(p, r, "DEADLINE-CLEARED")
 	checkHandlerBlocking(p, r, "BLOCKING-OP", fns)
 }
 
